@@ -160,7 +160,7 @@ def h_dest(ctx, N1, N2, mode, variant, abandon=False):
                           "fresh": str(va)[:300], "used": str(vb)[:300]})
 
 
-def h_src(ctx, T, mode, hist, hist_mode=None, other_file=False, script2=None):
+def h_src(ctx, T, mode, hist, hist_mode=None, other_file=False, script2=None, hist_wide=False):
     """second transaction on a source handler that already ran one, vs a fresh handler"""
     from vf.harness.c10 import SRC_STATE
     w = World(ctx)
@@ -178,6 +178,12 @@ def h_src(ctx, T, mode, hist, hist_mode=None, other_file=False, script2=None):
         ctx.assume(s0 <= used.M * used.seg)
         used.rig.fs.add_source_file("/src/old.bin", s0, alt=True)
         hist_kw = {"src": "/src/old.bin", "dst": "/dst/old.bin"}
+    if hist_wide:
+        # the earlier transaction went to a remote entity whose id is wider than the local one
+        from spacepackets.util import UnsignedByteField
+        wide = UnsignedByteField(9, 8)
+        used.rig.table.add_config(rigs.remote_cfg(wide, max_packet_len=34, mode=mode, closure=closure))
+        hist_kw["dest_id"] = wide
     used.put(mode=hm, closure=None if hm is None else True, **hist_kw)
     o = used.sm()
     hsrc.end_if_other_property(ctx, o)
@@ -235,6 +241,9 @@ def src_view(o):
     pd = []
     for p in o.pdus:
         k = pdu_kind(p)
+        pd.append(("hdr", p.source_entity_id.byte_len, p.source_entity_id.value, p.dest_entity_id.byte_len,
+                   p.dest_entity_id.value, p.transaction_seq_num.byte_len, int(p.crc_flag), int(p.transmission_mode),
+                   int(p.file_flag), int(p.direction)))
         if k == "FD":
             pd.append((k, p.offset, p.file_data))
         elif k == "EOF":
@@ -276,6 +285,9 @@ def plan(tier):
                           {"T": 3, "mode": mode, "hist": "completed", "other_file": True,
                            "script2": [["SM"], ["SM"], ["SM", "TICK"]]}, twin_share=0.05,
                           obligations=["history_ended_idle"]))
+    specs.append(Spec("src/ack/second-transaction-after-one-to-a-wider-id-remote/T=2", "vf.harness.c11:h_src",
+                      {"T": 2, "mode": "ack", "hist": "completed", "hist_wide": True, "script2": [["SM"], ["SM", "TICK"]]},
+                      twin_share=0.05, obligations=["history_ended_idle"]))
     for hist, script2 in (("cancelled_in_retransmission", [["NAK"], ["SM"], ["SM"]]),
                           ("cancelled_in_early_retransmission", [["SM"], ["SM"], ["SM"], ["NAK"], ["SM"]])):
         # the follow-up NAK arrives in another step than the one the history's NAK was served in
